@@ -1412,8 +1412,9 @@ seq_t dtw_warping_paths_ndim(seq_t *wps,
         rvalue = -1;
     }
 
-    if (settings->max_dist > 0 && rvalue > settings->max_dist) {
+    if (rvalue > p.max_dist) {
         // DTWPruned keeps the last value larger than max_dist. Correct for this.
+        // (p.max_dist is expressed in the internal representation, like rvalue at this point)
         rvalue = INFINITY;
     }
     if (!keep_int_repr) {
@@ -1798,8 +1799,9 @@ seq_t dtw_warping_paths_ndim_euclidean(seq_t *wps,
         rvalue = -1;
     }
 
-    if (settings->max_dist > 0 && rvalue > settings->max_dist) {
+    if (rvalue > p.max_dist) {
         // DTWPruned keeps the last value larger than max_dist. Correct for this.
+        // (p.max_dist is expressed in the internal representation, like rvalue at this point)
         rvalue = INFINITY;
     }
 
